@@ -47,12 +47,19 @@ type c10SrvHandler struct {
 	mu    sync.Mutex
 	mode  string // reply | none | error
 	calls int
+	got   []c10SrvSeen
+}
+
+type c10SrvSeen struct {
+	Key, Version int16
+	Corr         int32
 }
 
 func (h *c10SrvHandler) Handle(ctx context.Context, header *protocol.RequestHeader, req kmsg.Request) ([]byte, error) {
 	h.mu.Lock()
 	mode := h.mode
 	h.calls++
+	h.got = append(h.got, c10SrvSeen{req.Key(), req.GetVersion(), header.CorrelationID})
 	h.mu.Unlock()
 	if header.ClientID != nil && *header.ClientID == "vf-sentinel" {
 		mode = "reply"
@@ -67,6 +74,8 @@ func (h *c10SrvHandler) Handle(ctx context.Context, header *protocol.RequestHead
 }
 
 type c10SrvFrame struct {
+	// Want: for a well-formed request of a served key: what the Handler must receive
+	Want  *c10SrvSeen
 	Kind  string
 	Wire  []byte // bytes written for this frame (may be a partial frame)
 	Close bool   // close the connection right after these bytes
@@ -151,7 +160,15 @@ func c10SrvGenFrame(t *rapid.T, known bool, i int, last bool) c10SrvFrame {
 		n := rapid.IntRange(0, len(full)).Draw(t, lbl("n"))
 		return c10SrvFrame{Kind: "truncated-body", Wire: c10SrvFrameOf(full[:n])}
 	case "valid":
-		return c10SrvFrame{Kind: "valid", Wire: c10SrvFrameOf(valid())}
+		f := c10SrvFrame{Kind: "valid", Wire: c10SrvFrameOf(valid())}
+		served := false
+		for _, k := range c10SrvKeys {
+			served = served || k == key
+		}
+		if served && ver >= 0 && ver <= maxV {
+			f.Want = &c10SrvSeen{key, ver, corr}
+		}
+		return f
 	case "random-body":
 		n := rapid.IntRange(0, 60).Draw(t, lbl("n"))
 		body := c10SrvTame(rapid.SliceOfN(rapid.Byte(), n, n).Draw(t, lbl("body")))
@@ -212,7 +229,33 @@ func c10SrvGenProxyPrefix(t *rapid.T) ([]byte, string) {
 	case 0:
 		return []byte("PROXY TCP4 10.0.0.1 10.0.0.2 1000 2000\r\n"), "v1-valid"
 	case 1:
-		return v2(0x21, 0x11, 12, []byte{10, 0, 0, 1, 10, 0, 0, 2, 0x03, 0xe8, 0x07, 0xd0}), "v2-valid"
+		// address block followed by 0-3 TLVs as seen in the field (NOOP padding, authority, AWS
+		// VPC endpoint id, unique id)
+		block := []byte{10, 0, 0, 1, 10, 0, 0, 2, 0x03, 0xe8, 0x07, 0xd0}
+		fp := byte(0x11)
+		if rapid.Bool().Draw(t, "proxy-v6") {
+			fp = 0x21
+			block = append(append(append(bytes.Repeat([]byte{0x20}, 1), bytes.Repeat([]byte{1}, 15)...), append([]byte{0x20}, bytes.Repeat([]byte{2}, 15)...)...), 0x03, 0xe8, 0x07, 0xd0)
+		}
+		kind := "v2-valid"
+		ntlv := rapid.IntRange(0, 3).Draw(t, "proxy-tlvs")
+		for i := 0; i < ntlv; i++ {
+			var typ byte
+			var val []byte
+			switch rapid.IntRange(0, 3).Draw(t, "proxy-tlv-kind") {
+			case 0:
+				typ, val = 0x04, make([]byte, rapid.IntRange(0, 20).Draw(t, "proxy-noop"))
+			case 1:
+				typ, val = 0x02, []byte("broker.kafka.example.com")
+			case 2:
+				typ, val = 0xEA, append([]byte{0x01}, "vpce-08d2bf15fac5001c9"...)
+			default:
+				typ, val = 0x05, rapid.SliceOfN(rapid.Byte(), 1, 16).Draw(t, "proxy-tlv-val")
+			}
+			block = append(append(block, typ, byte(len(val)>>8), byte(len(val))), val...)
+			kind = "v2-valid+tlv"
+		}
+		return v2(0x21, fp, len(block), block), kind
 	case 2:
 		return v2(0x20, 0x00, 0, nil), "v2-local"
 	case 3: // address block of every declared length around the family's size, fully present
@@ -418,6 +461,25 @@ func TestVF_C10_Server(t *testing.T) {
 		}
 		if len(rb) != 0 {
 			st.Class("note:partial-reply-frame")
+		}
+		// round trip through the real connection loop: a well-formed request of a served key that
+		// is the first thing on the connection (after a valid PROXY header, if the listener wants
+		// one) must arrive at the Handler as the same key, version and correlation id
+		first := 0
+		validPrefix := prefixKind == "" || prefixKind == "v1-valid" || prefixKind == "v2-local" || strings.HasPrefix(prefixKind, "v2-valid")
+		if prefixKind != "" {
+			first = 1
+		}
+		if validPrefix && prefixKind != "none" && len(frames) > first && frames[first].Want != nil {
+			w := *frames[first].Want
+			h.mu.Lock()
+			got := append([]c10SrvSeen(nil), h.got...)
+			h.mu.Unlock()
+			if len(got) == 0 || got[0] != w {
+				t.Fatalf("a well-formed %s v%d request (correlation %d) sent first on the connection (listener prefix %q) did not reach the Handler as such: handler saw %+v\nwire=%s",
+					kmsg.NameForKey(w.Key), w.Version, w.Corr, prefixKind, got, strings.Join(wire, " | "))
+			}
+			st.Class("first-request-reached-handler")
 		}
 		if msg := c10SrvSentinel(srv, prefixKind != ""); msg != "" {
 			if strings.Contains(msg, "deadline") || strings.Contains(msg, "timeout") {
